@@ -366,4 +366,17 @@ def s2_trace_gbs():
     bad = tracer.selfcheck_gbs(traced)
     if bad:
         return f"tracer self-check failed for n = {bad} (printed expression != what the Python function computes)"
+    return s2_trace_extract()
+
+
+def s2_trace_extract():
+    """PRE_LEAN hook of C01 (and, through s2_trace_gbs, C09): re-trace utils.extract_vars on a symbolic 29-vector (two grains) and
+    rewrite lean/Generated/TracedExtract.lean (bridge theorem: lean/Bridge/Extract.lean)."""
+    from .trace import tracer
+
+    traced = tracer.trace_extract(2)
+    tracer.emit_extract(traced)
+    bad = tracer.selfcheck_extract(traced)
+    if bad:
+        return f"tracer self-check failed for {bad} (printed expression != what the Python function computes)"
     return None
